@@ -37,9 +37,9 @@ theorem lookupSelf_cd_ready' (d : Disk) (pp : Path) :
 
 theorem doRm_unlink_frame (d : Disk) (pp : Path) (n : Name) :
     Triple (fun s => CD d s ∧ DirAt pp s) (doRm pp n false)
-      (fun _ s => Consistent s ∧ FrameD d s.disk (n :: pp)) (fun s => Consistent s ∧ FrameD d s.disk (n :: pp)) := by
-  have hE : ∀ s, CD d s → Consistent s ∧ FrameD d s.disk (n :: pp) :=
-    fun s h => ⟨h.1, by rw [h.2]; exact FrameD.refl d _⟩
+      (fun _ s => Consistent s ∧ FrameD d s.disk (n :: pp)) (fun s => Consistent s ∧ ViewD d s.disk) := by
+  have hE : ∀ s, CD d s → Consistent s ∧ ViewD d s.disk :=
+    fun s h => ⟨h.1, by rw [h.2]; exact ViewD.refl d⟩
   unfold doRm
   refine Triple.bind (Q := fun _ s => CD d s ∧ DirAt pp s) ?_ fun up => ?_
   · intro s hs
@@ -63,7 +63,7 @@ theorem doRm_unlink_frame (d : Disk) (pp : Path) (n : Name) :
   intro this
   cases res with
   | ok u s' => exact ⟨this.1, by rw [← hd]; exact (this.2.2 hdn).toD⟩
-  | err e s' => exact ⟨this.1, by rw [← hd]; exact (this.2 hdn).toD _⟩
+  | err e s' => exact ⟨this.1, by rw [← hd]; exact this.2 hdn⟩
 
 /-- LOOKUP of the last component over a fixed disk -/
 theorem doLookup_cd_keepsDir (d : Disk) (pp : Path) (n : Name) :
@@ -73,9 +73,9 @@ theorem doLookup_cd_keepsDir (d : Disk) (pp : Path) (n : Name) :
 
 theorem runOp_unlink_frame (d : Disk) (p : List Name) :
     Triple (CD d) (runOp (.unlink p))
-      (fun _ s => Consistent s ∧ FrameD d s.disk p.reverse) (fun s => Consistent s ∧ FrameD d s.disk p.reverse) := by
-  have hE : ∀ s, CD d s → Consistent s ∧ FrameD d s.disk p.reverse :=
-    fun s h => ⟨h.1, by rw [h.2]; exact FrameD.refl d _⟩
+      (fun _ s => Consistent s ∧ FrameD d s.disk p.reverse) (fun s => Consistent s ∧ ViewD d s.disk) := by
+  have hE : ∀ s, CD d s → Consistent s ∧ ViewD d s.disk :=
+    fun s h => ⟨h.1, by rw [h.2]; exact ViewD.refl d⟩
   unfold runOp
   refine Triple.bind ((resolveParent_cd d p).conseq (fun _ h => h) (fun _ _ h => h) hE) fun r => Triple.pure_pre fun hpath => ?_
   obtain ⟨pp, n⟩ := r
@@ -88,9 +88,9 @@ theorem runOp_unlink_frame (d : Disk) (p : List Name) :
 
 theorem runOp_rmdir_frame (d : Disk) (p : List Name) :
     Triple (CD d) (runOp (.rmdir p))
-      (fun _ s => Consistent s ∧ FrameD d s.disk p.reverse) (fun s => Consistent s ∧ FrameD d s.disk p.reverse) := by
-  have hE : ∀ s, CD d s → Consistent s ∧ FrameD d s.disk p.reverse :=
-    fun s h => ⟨h.1, by rw [h.2]; exact FrameD.refl d _⟩
+      (fun _ s => Consistent s ∧ FrameD d s.disk p.reverse) (fun s => Consistent s ∧ ViewD d s.disk) := by
+  have hE : ∀ s, CD d s → Consistent s ∧ ViewD d s.disk :=
+    fun s h => ⟨h.1, by rw [h.2]; exact ViewD.refl d⟩
   unfold runOp
   refine Triple.bind ((resolveParent_cd d p).conseq (fun _ h => h) (fun _ _ h => h) hE) fun r => Triple.pure_pre fun hpath => ?_
   obtain ⟨pp, n⟩ := r
